@@ -27,7 +27,7 @@ type jsonOp struct {
 type c16Case struct {
 	ID       int      `json:"id"`
 	Jsonb    bool     `json:"jsonb"`
-	Ops      string   `json:"ops"`      // s-expression list for the model, plain form
+	Ops      string   `json:"ops"`       // s-expression list for the model, plain form
 	OpsBatch string   `json:"ops_batch"` // the same history with maximal set runs in batch form
 	OpsApply string   `json:"ops_apply"` // wrapped in ApplyIf(true, ...)
 	Prog     string   `json:"prog"`
@@ -164,7 +164,10 @@ func runC16Case(id int, jsonb bool, ops []jsonOp) (c c16Case) {
 	batch, bs := applyBatch(base, ops)
 	c.OpsBatch = bs
 	calls := 0
-	f := func(b builder.JsonBuildObjectBuilder) builder.JsonBuildObjectBuilder { calls++; return applyPlain(b, ops) }
+	f := func(b builder.JsonBuildObjectBuilder) builder.JsonBuildObjectBuilder {
+		calls++
+		return applyPlain(b, ops)
+	}
 	viaApply := base.ApplyIf(true, f)
 	c.OpsApply = "(AI T " + c.Ops + ")"
 	notApplied := applyPlain(base.ApplyIf(false, f), ops)
@@ -220,5 +223,27 @@ func runC16(out io.Writer, seed int64, maxLen int, nRandom int) {
 		}
 		enc.Encode(runC16Case(id, rng.Intn(2) == 0, ops))
 		id++
+		if i%6 == 0 {
+			// a long run of set operations (one batch): many new keys, now and then an earlier key set again -
+			// sizes around the capacities a slice passes through (8, 16, 32, 64)
+			m := 6 + rng.Intn(70)
+			wide := make([]jsonOp, 0, m)
+			fresh := 0
+			for j := 0; j < m; j++ {
+				o := jsonOp{Kind: "P", Val: fmt.Sprintf("w%d", j)}
+				if rng.Intn(5) == 0 {
+					o = jsonOp{Kind: "PI", Cond: rng.Intn(4) != 0, Val: fmt.Sprintf("w%d", j)}
+				}
+				if fresh > 0 && rng.Intn(4) == 0 {
+					o.Key = fmt.Sprintf("n%d", rng.Intn(fresh))
+				} else {
+					o.Key = fmt.Sprintf("n%d", fresh)
+					fresh++
+				}
+				wide = append(wide, o)
+			}
+			enc.Encode(runC16Case(id, rng.Intn(2) == 0, wide))
+			id++
+		}
 	}
 }
